@@ -611,6 +611,9 @@ fn calls(o: &Opts, out: &mut Out, run: &mut u64) {
         let checked = match catch(std::panic::AssertUnwindSafe(|| tb.build())) { Ok(c) => c, Err(_) => continue };
         let mut w = World { params: ConsensusParameters::standard(), gas_price: 0, storage: tb.get_storage().clone(), block_height: 0 };
         w.block_height = u32::from(tb.get_block_height());
+        // every third run under a seeded random schedule (small numbers: the dependent part of the CALL charge - per byte of the
+        // PADDED code - then changes with every few bytes of code)
+        if k % 3 == 1 { w.params.set_gas_costs(random_gas(&mut rng, 9)); }
         *run += 1;
         out.ev(json!({"ev": "Seg"}));
         let extra = json!({"driver": "calls", "contracts": contracts_json(&w.storage, &[c1, c2], &[asset, AssetId::zeroed()]),
